@@ -990,7 +990,22 @@ func TestVerifC10WireLaws(t *testing.T) {
 			var in []byte
 			app := false
 			if c10ValClass[c.Op] != "" {
-				in, orig, app = c10ValCase(v, c, rep, rec)
+				// a failure code with several table values (with and without a
+				// channel_update): take the next one that has such fields
+				vv := v
+				for k := 1; c.Kind != "msg" && k < 4 && len(c10Leaves(vv.val, c10ValClass[c.Op])) == 0; k++ {
+					key2 := [3]int{kinds[c.Kind], c.T, rep + k}
+					v2, ok := valid[key2]
+					if !ok {
+						if v2, err = c10MakeValid(c.Kind, c.T, rep+k); err != nil {
+							break
+						}
+						valid[key2] = v2
+					}
+					vv = v2
+				}
+				rec["vlen"], rec["ilen"] = len(vv.b), len(vv.b)
+				in, orig, app = c10ValCase(vv, c, rep, rec)
 				if app && in == nil {
 					// the encoder did not produce an input: that is the observation
 					rec["ilen"] = 0
